@@ -180,14 +180,182 @@ Definition c14_proc_run_cfg (case obs : sx) : verdict :=
   | _ => BadCase
   end.
 
+(* ---- fd/util.go extractConditions: one value of the match_fields map -> one condition ------------------------
+   The value is given as the JSON tree the configuration reader hands over. Documented (docs/configuring.md,
+   pipeline/README.md): a list of strings = exact values (prefixes in the *_prefix modes), a string = one such value,
+   a string written /between slashes/ = a regular expression; "patterns must have a list or string type, not a
+   number or null". As coded, a scalar string that starts with a slash MUST be a delimited regexp that compiles. *)
+Inductive ckind := CExact (vals : list bytes) | CRegexp (inner : bytes) | CRefused.
+
+Definition is_slash (c : byte) : bool := (c =? 47)%N.
+
+(* cfg.CompileRegex: "" , "/" , no leading or no trailing slash -> error; else regexp.Compile(s[1:len(s)-1]) *)
+Definition compile_regex (re_ok : bytes -> bool) (s : bytes) : option bytes :=
+  match s with
+  | [] => None
+  | c :: r =>
+      if negb (is_slash c) then None
+      else match rev r with
+           | [] => None
+           | l :: ri => if is_slash l then (let p := rev ri in if re_ok p then Some p else None) else None
+           end
+  end.
+
+Definition json_string (j : json) : option bytes := match j with JStr s => Some s | _ => None end.
+Definition json_strings (l : list json) : option (list bytes) := opt_map json_string l.
+
+Definition extract_value (re_ok : bytes -> bool) (v : json) : ckind :=
+  match v with
+  | JStr s =>
+      match s with
+      | c :: _ =>
+          if is_slash c                                             (* value != "" && value[0] == '/' *)
+          then match compile_regex re_ok s with Some p => CRegexp p | None => CRefused end
+          else CExact [s]
+      | [] => CExact [s]
+      end
+  | JArr l => match json_strings l with Some vs => CExact vs | None => CRefused end   (* obj.([]any): every element a string *)
+  | _ => CRefused                                                   (* number, bool, null, object (fix 4c267b0) *)
+  end.
+
+Definition cond_of_kind (path : list bytes) (k : ckind) : option cond :=
+  match k with
+  | CExact vs => Some {| c_field := path; c_values := vs; c_regexp := None |}
+  | CRegexp p => Some {| c_field := path; c_values := []; c_regexp := Some p |}
+  | CRefused => None
+  end.
+
+(* the whole map (one entry per field; Go ranges over it in random order: the first refusal refuses everything) *)
+Definition extract_conds (re_ok : bytes -> bool) (cfg : list (list bytes * json)) : option (list cond) :=
+  opt_map (fun pv => cond_of_kind (fst pv) (extract_value re_ok (snd pv))) cfg.
+
+(* ---- the documented reading, stated on the configuration itself (no intermediate condition) ---------------- *)
+(* "/inner/" : at least two bytes, first and last a slash *)
+Definition delimited (s : bytes) : option bytes := compile_regex (fun _ => true) s.
+Definition starts_with_slash (s : bytes) : bool := match s with c :: _ => is_slash c | [] => false end.
+
+Definition lit_test (byPrefix : bool) (s v : bytes) : bool := if byPrefix then has_prefix s v else bytes_eqb v s.
+
+(* the kind of test a value stands for *)
+Definition doc_kind (re_ok : bytes -> bool) (v : json) : ckind :=
+  match v with
+  | JArr l => match json_strings l with Some vs => CExact vs | None => CRefused end
+  | JStr s =>
+      match delimited s with
+      | Some p => if re_ok p then CRegexp p else CRefused
+      | None => if starts_with_slash s then CRefused else CExact [s]
+      end
+  | _ => CRefused
+  end.
+
+Definition cfg_accepted (re_ok : bytes -> bool) (v : json) : bool :=
+  match v with
+  | JArr l => forallb (fun x => isSome (json_string x)) l
+  | JStr s => match delimited s with Some p => re_ok p | None => negb (starts_with_slash s) end
+  | _ => false
+  end.
+
+Section ConfigSpec.
+  Variable re_match : bytes -> bytes -> bool.
+
+  (* does the field text [s] satisfy the configured value [v] ? *)
+  Definition cfg_value_holds (byPrefix : bool) (s : bytes) (v : json) : bool :=
+    match v with
+    | JArr l => existsb (fun x => match x with JStr w => lit_test byPrefix s w | _ => false end) l
+    | JStr w => match delimited w with Some p => re_match p s | None => lit_test byPrefix s w end
+    | _ => false
+    end.
+
+  Definition cfg_cond_holds (byPrefix : bool) (e : json) (pv : list bytes * json) : bool :=
+    match jdig e (fst pv) with
+    | None => false
+    | Some nd => cfg_value_holds byPrefix (as_string nd) (snd pv)
+    end.
+
+  Definition cfg_spec (mode : mmode) (invert : bool) (cfg : list (list bytes * json)) (e : json) : bool :=
+    xorb invert (if is_or mode then existsb (cfg_cond_holds (by_prefix mode) e) cfg
+                 else forallb (cfg_cond_holds (by_prefix mode) e) cfg).
+End ConfigSpec.
+
+(* ---- glue: which = 4, the match_fields map of a configuration ------------------------------------------------
+   case = (route #mode invert ((path value-json) ...) (event ...) tables)
+   obs  = (2) refused | (((0 #value ...) | (1 #inner)) ...) one per entry, (bit ...) one per event)   route 0: fd.extractConditions
+                                                                                                     + processor.isMatch
+        | (7 (bit ...))                                                                             route 1: fd.SetupActions +
+                                                                                                     a real pipeline, discard *)
+Definition entry_of_sx (s : sx) : option (list bytes * json) :=
+  match s with
+  | SL [p; v] => match path_of_sx p, json_of_sx v with Some a, Some b => Some (a, b) | _, _ => None end
+  | _ => None
+  end.
+
+Definition kind_sx (k : ckind) : sx :=
+  match k with
+  | CExact vs => SL (SZ 0 :: map SB vs)
+  | CRegexp p => SL [SZ 1; SB p]
+  | CRefused => SL [SZ 2]
+  end.
+
+(* the oracle values the model may consult: Compile of every delimited scalar, Match on every present field *)
+Definition cfg_needs_ok (t : tables) (cfg : list (list bytes * json)) (es : list json) : bool :=
+  forallb (fun pv => match snd pv with
+                     | JStr s =>
+                         match delimited s with
+                         | Some p =>
+                             match lookup1 (t_reok t) p with
+                             | Some true => forallb (fun e => match jdig e (fst pv) with
+                                                              | Some nd => isSome (lookup2 (t_re t) p (as_string nd))
+                                                              | None => true
+                                                              end) es
+                             | Some false => true
+                             | None => false
+                             end
+                         | None => true
+                         end
+                     | _ => true
+                     end) cfg.
+
+Definition cfg_obs (route : Z) (trans : list sx) (bits : list bool) : sx :=
+  if (route =? 0)%Z then SL [SL trans; SL (map of_bool bits)] else SL [SZ 7; SL (map of_bool bits)].
+
+Definition c14_cfg_run (case obs : sx) : verdict :=
+  match case with
+  | SL [SZ route; SB mname; inv; SL ents; SL evs; tb] =>
+      match opt_map entry_of_sx ents, opt_map json_of_sx evs, tables_of_sx tb, as_bool inv with
+      | Some cfg, Some es, Some t, Some invert =>
+          if negb ((route =? 0)%Z || (route =? 1)%Z) then BadCase
+          else if negb (cfg_needs_ok t cfg es) then BadCase
+          else
+            match mode_of_name mname with
+            | None => exact_verdict obs_reject obs
+            | Some mode =>
+                let m := match extract_conds (treok t) cfg with
+                         | None => obs_reject
+                         | Some conds =>
+                             cfg_obs route (map (fun pv => kind_sx (extract_value (treok t) (snd pv))) cfg)
+                                     (map (is_match (tre t) mode invert conds) es)
+                         end in
+                let s := if forallb (fun pv => cfg_accepted (treok t) (snd pv)) cfg
+                         then cfg_obs route (map (fun pv => kind_sx (doc_kind (treok t) (snd pv))) cfg)
+                                      (map (cfg_spec (tre t) mode invert cfg) es)
+                         else obs_reject in
+                verdict3 m s obs
+            end
+      | _, _, _, _ => BadCase
+      end
+  | _ => BadCase
+  end.
+
 (* entry point of the model runner: 0 one check (an event or an antispam datum), 1 checkers x events in
    sequence / an action chain, 2 processor.isMatch, 3 real pipeline + discard (configuration read by
-   fd.SetupActions / extractConditions) *)
+   fd.SetupActions / extractConditions), 4 the match_fields map of a configuration: translation by
+   fd.extractConditions + decisions *)
 Definition c14_entry (which : Z) (case obs : sx) : verdict :=
   match which with
   | 0 => c14_check_run case obs
   | 1 => c14_seq_run case obs
   | 2 => c14_proc_run case obs
   | 3 => c14_proc_run_cfg case obs
+  | 4 => c14_cfg_run case obs
   | _ => BadCase
   end.
